@@ -16,6 +16,20 @@ def valid(text: str) -> bool:
         return False
 
 
+def compiles(text: str) -> bool:
+    """Stricter than parsing: also what the compiler's later passes reject (return / yield outside a function, break outside a loop, duplicate parameters,
+    misplaced nonlocal / global ...)."""
+    import warnings
+
+    try:
+        with warnings.catch_warnings():
+            warnings.simplefilter("ignore")
+            compile(text, "<verif>", "exec", dont_inherit=True)
+        return True
+    except (SyntaxError, ValueError, RecursionError, MemoryError, OverflowError):
+        return False
+
+
 def valid_fragment(text: str) -> bool:
     """Validity of a possibly indented fragment is judged after dedent."""
     return valid(text) or valid(textwrap.dedent(text))
